@@ -35,6 +35,17 @@ import re as _re
 _SAN = _re.compile(r"[^A-Za-z0-9_.!@$%^&*+=<>?/~-]")
 
 
+def mark_born(obj):
+    """Tag an object created during the current path (writes to it need no frame clause)."""
+    c = CUR
+    b = 0
+    if c is not None:
+        b = c.data.get("born", 0) + 1
+        c.data["born"] = b
+    obj.__dict__["_born"] = b
+    return obj
+
+
 def cur() -> "Ctx":
     if CUR is None:
         raise RuntimeError("no symbolic context active")
